@@ -61,11 +61,6 @@ def patConstructs : Pat → List String
 
 def b01 (b : Bool) : String := if b then "1" else "0"
 
-/-- the rewrite of the source as it is now: the escape table and the subtraction switch are extracted -/
-def rewriteSrc (fx : Fixes) (p : Bytes) : Except RwErr Bytes :=
-  if Generated.UBlocks.subtraction then rewriteWithS Generated.UBlocks.mceTable fx p
-  else rewriteWithM Generated.UBlocks.mceTable fx p
-
 def handle (op : String) (args : List String) : String :=
   match op, args with
   | "match", [ph, sh, inv] =>
